@@ -64,7 +64,7 @@ def run_extraction(name, driver_text, wanted, extra_includes=(), defines=(), std
     if pp.returncode != 0:
         raise Undecided("extraction: clang cannot preprocess driver %s: %s" % (name, pp.stderr.decode()[-1500:]))
     selfsha = _sha(open(cxx2c.__file__, "rb").read(), open(__file__, "rb").read())
-    key = _sha(pp.stdout, std, json.dumps(sorted(wanted)), json.dumps(externals or {}, sort_keys=True),
+    key = _sha(name, pp.stdout, std, json.dumps(sorted(wanted)), json.dumps(externals or {}, sort_keys=True),
                json.dumps(opaque or {}, sort_keys=True), json.dumps(type_map or {}, sort_keys=True),
                json.dumps(extern_funcs or {}, sort_keys=True), selfsha, str(diff), json.dumps(sorted(diff_skip)))
     cfile = os.path.join(CACHE, key + ".json")
@@ -83,7 +83,7 @@ def run_extraction(name, driver_text, wanted, extra_includes=(), defines=(), std
         except cxx2c.Unsupported as e:
             raise Undecided("extraction (%s): %s" % (name, e))
         d = {"c": text, "h": hdr, "names": names, "info": em.fn_src, "cpp": cpp, "fwd": fwd, "protos": em.fn_proto,
-             "order": em.fn_order, "leafs": leafs, "may_throw": sorted(em.may_throw)}
+             "order": em.fn_order, "leafs": leafs, "may_throw": sorted(em.may_throw), "pkinds": getattr(em, "fn_pkinds", {})}
         json.dump(d, open(cfile, "w"))
     ex.c_path = os.path.join(outdir, name + ".c")
     ex.shim_cpp = os.path.join(outdir, name + ".shim.cpp")
@@ -99,6 +99,7 @@ def run_extraction(name, driver_text, wanted, extra_includes=(), defines=(), std
     ex.order = d["order"]
     ex.leafs = d["leafs"]
     ex.may_throw = d.get("may_throw", [])
+    ex.pkinds = d.get("pkinds", {})
     if diff:
         dfile = os.path.join(CACHE, key + ".diff.json")
         seed = int(os.environ.get("VERIF_SEED", "0") or 0)
@@ -222,9 +223,11 @@ def differential(ex, outdir, seed, skip=()):
         fwd_txt = fwd_txt.replace("real_fwd_%s(" % cn, "real_%s(" % cn)
     drv = [DIFF_PRELUDE, ext_txt, "#undef cxx2c_thrown_real", fwd_txt]
     # fill / eq helpers per struct
+    hdr_txt = open(ex.h_path).read()
+    unions = {s for s in ex.leafs if ("union %s\n{" % s) in hdr_txt}
     for s, leafs in ex.leafs.items():
         fl, eq = [], []
-        ok = True
+        ok = s not in unions
         for path, ct in leafs:
             if ct in POOLS:
                 fl.append("    p->%s = %s ();" % (path, POOLS[ct]))
@@ -243,7 +246,7 @@ def differential(ex, outdir, seed, skip=()):
             drv.append("static int eq_%s (const struct %s *a, const struct %s *b)\n{\n%s\n    return 1;\n}" % (s, s, s, "\n".join(eq)))
         else:
             drv.append("/* struct %s has pointer/opaque members: not testable */" % s)
-    testable_structs = {s for s, leafs in ex.leafs.items() if all(ct in POOLS or ct.startswith("bitfield:") for _, ct in leafs)}
+    testable_structs = {s for s, leafs in ex.leafs.items() if s not in unions and all(ct in POOLS or ct.startswith("bitfield:") for _, ct in leafs)}
     calls = []
     for cn in ex.order:
         if cn in skip:
@@ -257,7 +260,7 @@ def differential(ex, outdir, seed, skip=()):
         rt = m.group(1).strip()
         ps = [p.strip() for p in cxx2c.split_top(m.group(2))] if m.group(2).strip() != "void" else []
         decls, fills, args1, args2, cmps = [], [], [], [], []
-        good = True
+        good = "ptr" not in ex.pkinds.get(cn, [])
         for i, p in enumerate(ps):
             mm = re.match(r"^(struct \w+|[\w ]+?)\s*(\**)\s*(\w+)((\[\d+\])*)$", p)
             if not mm or mm.group(4):
